@@ -463,7 +463,8 @@ static int failed, count, count_alt, lineno, sflags, s_maxitems, uses_special;
 static void block(int level, unsigned long long cursec_, unsigned long long ss, const char *parents, int maxdepth) {
     int nitems = pick(s_maxitems + 1);
     for (int i = 0; i < nitems && !failed; i++) {
-        int k = pick(maxdepth > 0 ? ((sflags == QAC_CASEINSENSITIVE) ? 9 : 8) : 6); if (maxdepth <= 0 && k >= 4) k += 2;   /* leaf level: no section kinds; kind 8 = <DIR ..>, the Dir section in another case */
+        int k = pick(maxdepth > 0 ? ((sflags == QAC_CASEINSENSITIVE || sflags == QAC_IGNOREUNKNOWN) ? 9 : 8) : 6); if (maxdepth <= 0 && k >= 4) k += 2;   /* leaf level: no section kinds; kind 8 = <DIR ..>, the Dir section in another case */
+        if (k == 8 && sflags == QAC_IGNOREUNKNOWN) k = 9;      /* kind 9 = <V ..>, a section nobody registered: ignored, its content belongs to no registered section */
         char line[64]; lineno++;
         if (k < 4 || k == 6 || k == 7) {
             sprintf(line, "%s v%d\n", NAME[k], lineno); strcat(doc, line);
@@ -478,8 +479,15 @@ static void block(int level, unsigned long long cursec_, unsigned long long ss, 
             int kk = k == 7 ? 0 : k;
             if (ALLOW[kk] != 0 && (ALLOW[kk] & cursec_) == 0) { failed = lineno; return; }
             char *w = want + strlen(want); sprintf(w, "0:%s,v%d L%d S%llu SS%llu P%s\n", cbname, lineno, level, cursec_, ss, parents); count++;
+        } else if (k == 9) {
+            sprintf(line, "<V n%d>\n", lineno); strcat(doc, line); uses_special = 1; count_alt++;
+            int myline = lineno; char np[256]; sprintf(np, "/V(n%d)%s", myline, parents);
+            block(level + 1, 0, ss, np, maxdepth - 1);
+            if (failed) return;
+            lineno++; strcat(doc, "</V>\n"); count_alt++;
         } else {
-            sprintf(line, "<%s n%d>\n", NAME[k], lineno); strcat(doc, line);
+            /* blanks in front of the closing bracket are layout, not arguments (varied with the line number) */
+            sprintf(line, lineno % 3 == 0 ? "<%s n%d>\n" : lineno % 3 == 1 ? "<%s n%d >\n" : "<%s  n%d  >\n", NAME[k], lineno); strcat(doc, line);
             if ((ALLOW[k] & cursec_) == 0) { failed = lineno; return; }
             int myline = lineno; char *w = want + strlen(want);
             sprintf(w, "1:%s,n%d L%d S%llu SS%llu P%s\n", NAME[k], myline, level, cursec_, ss, parents); count++;
